@@ -216,7 +216,7 @@ def ops_for(kind, preset="default"):
     return ["add1", "add2", "add_rep", "update", "clear"]
 
 
-def do_add(model, kind, op, counter, d, m, held):
+def _do_add(model, kind, op, counter, d, m, held):
     """apply an add op to the real model; mirror it into `held` (the wrapper-level data)"""
     i = counter[0]
     if op == "add12":
@@ -228,25 +228,25 @@ def do_add(model, kind, op, counter, d, m, held):
             y = np.array([Yfull[r, idx[r]] for r in range(12)])
             model.add_sample(X, y, idx)
             for a, b, o in zip(X, y, idx):
-                held[o][0].append(a); held[o][1].append(b)
+                held[o][0].append(np.array(a)); held[o][1].append(float(b))
         else:
             model.add_sample(X, Yfull)
             for a, b in zip(X, Yfull):
-                held[0].append(a); held[1].append(b)
+                held[0].append(np.array(a)); held[1].append(np.array(b))
         return
     if kind == "list":
         if op == "add_o0":
             X = np.array([pt(i, d)])
             y = np.array([yv(i, m)[0]])
             model.add_sample(X, y, 0)
-            held[0][0].append(X[0]); held[0][1].append(y[0])
+            held[0][0].append(np.array(X[0])); held[0][1].append(float(y[0]))
             counter[0] += 1
         elif op == "add_o1":
             X = np.array([pt(i, d), pt(i + 1, d)])
             y = np.array([yv(i, m)[m - 1], yv(i + 1, m)[m - 1]])
             model.add_sample(X, y, m - 1)
             for a, b in zip(X, y):
-                held[m - 1][0].append(a); held[m - 1][1].append(b)
+                held[m - 1][0].append(np.array(a)); held[m - 1][1].append(float(b))
             counter[0] += 2
         elif op == "add_mixed":
             X = np.array([pt(i, d), pt(i + 1, d), pt(i + 2, d)])
@@ -254,14 +254,14 @@ def do_add(model, kind, op, counter, d, m, held):
             y = np.array([yv(i + r, m)[idx[r]] for r in range(3)])
             model.add_sample(X, y, idx)
             for a, b, o in zip(X, y, idx):
-                held[o][0].append(a); held[o][1].append(b)
+                held[o][0].append(np.array(a)); held[o][1].append(float(b))
             counter[0] += 3
         elif op == "add_rep":
             X = np.array([pt(0, d), pt(0, d)])
             y = np.array([yv(i, m)[0], yv(i + 1, m)[1]])
             model.add_sample(X, y, [0, 1])
-            held[0][0].append(X[0]); held[0][1].append(y[0])
-            held[1][0].append(X[1]); held[1][1].append(y[1])
+            held[0][0].append(np.array(X[0])); held[0][1].append(float(y[0]))
+            held[1][0].append(np.array(X[1])); held[1][1].append(float(y[1]))
             counter[0] += 2
         return
     if op == "add1":
@@ -275,7 +275,29 @@ def do_add(model, kind, op, counter, d, m, held):
         counter[0] += 1
     model.add_sample(X, Y)
     for a, b in zip(X, Y):
-        held[0].append(a); held[1].append(b)
+        held[0].append(np.array(a)); held[1].append(np.array(b))
+
+
+class _Spy:
+    """forwards add_sample to the real model and remembers the caller-side arrays it was handed"""
+
+    def __init__(self, model):
+        self._m = model
+        self.handed = []
+
+    def add_sample(self, X, Y, *a, **k):
+        self.handed += [X, Y]
+        return self._m.add_sample(X, Y, *a, **k)
+
+
+def do_add(model, kind, op, counter, d, m, held):
+    """the add op, after which the caller's own arrays are overwritten: the samples a model holds are the
+    values it was GIVEN; what the caller does with its buffers afterwards is the environment's business"""
+    spy = _Spy(model)
+    _do_add(spy, kind, op, counter, d, m, held)
+    for arr in spy.handed:
+        if isinstance(arr, np.ndarray):
+            arr[...] = 977.0
 
 
 def empty_held(kind, m):
